@@ -123,7 +123,19 @@ func (c *convo) build(kind int) (*pb.SessionRequest, []byte) {
 		d.Data[len(d.Data)/2] ^= 0x40
 		return decryptReq(d), nil
 	case kDecEmpty:
-		switch c.variant % 4 {
+		switch c.variant % 7 {
+		case 4, 5, 6:
+			// a genuine record whose ciphertext (or encrypted key) is cut down to little more than a nonce
+			d := cloneDRR(c.mat.genuine)
+			n := []int{12, 20, 27}[c.variant%7-4]
+			if c.variant%2 == 0 {
+				if len(d.Data) > n {
+					d.Data = d.Data[:n]
+				}
+			} else if len(d.Key.Key) > n {
+				d.Key.Key = d.Key.Key[:n]
+			}
+			return decryptReq(d), nil
 		case 0:
 			return decryptReq(nil), nil
 		case 1:
@@ -311,7 +323,8 @@ func runSeq(app *server.AppEncryption, mat *material, seq []int, variant int) (s
 
 func makeMaterial(app *server.AppEncryption) *material {
 	m := makeMaterialPart(app, "partA")
-	m.foreign = makeMaterialPart(app, "partB").genuine
+	// the foreign record belongs to a partition whose id continues the own key id ("partA" + "_" + service + "_" + product)
+	m.foreign = makeMaterialPart(app, "partA_svc_prod").genuine
 	return m
 }
 
